@@ -35,6 +35,9 @@ claimed = {
  'C02': ("contract-based deductive verification: K1 contracts of the condition constructors And/Or/Not and Where.MergeClause, SMT-discharged; raw-string grouping decided by a bounded stand-in on the real Build methods",
          "Proof, for all inputs, that And/Or/Not build exactly the documented group structure (empty = no condition, single non-OR unit unchanged, AND-group negated member-wise) and that successive Where clauses concatenate in call order. The parenthesising of raw AND/OR strings (string reasoning, outside the verifier's reach) is covered by a BOUNDED exhaustive run of the real Build methods, labelled bounded and not counted as proved.",
          "SQL precedence; atoms mean what they say; BuildCondition's form conversion is trusted (reflection)", "4/C02"),
+ 'C12': ("contract-based deductive verification (one sentence only): site obligation at every (*DB).Delete call of Association.Replace / Delete (Clear = Replace with nothing): the call is reached only when the association is Unscoped or the relation is many-to-many (the statement is then built for the join table); K3 writers sweeps for Association.Unscope and Relationship.Type, SMT-discharged",
+         "Proof of the sentence 'only links are removed - associated records survive - unless Unscoped is used' at the level of which DELETE statements association mode can issue. Which links a history of Append/Replace/Delete/Clear leaves in the database, Count/Find agreement and the in-memory relation field are NOT decided (database state after histories, reflection).",
+         "the many-to-many DELETE is built for the join table (by inspection: Model(joinValue)); SQL semantics; everything else in the property", "5/C12"),
  'C13': ("contract-based deductive verification: loop invariants on callMethod (one hook call per element, CurDestIndex tracks the element), ghost-protocol contracts on the hook closures (every hook error reaches AddError), site obligations (hooks only without pending error and without SkipHooks; Save's upsert fallback skips hooks), derivations keep SkipHooks, SMT-discharged",
          "Proof of the dispatch lemmas of DESIGN 4/C13 on the real callbacks; the pipeline order and that hooks run on the operation's transaction rest on C05/C17 lemmas.",
          "schema.Parse sets the hook flags from the method set; hooks do not reassign the handle's Statement or CurDestIndex (K3 writers sweep proves no /repo function other than the listed ones does)", "4/C13"),
@@ -62,7 +65,6 @@ claimed = {
 }
 na_reason = {
  'C07': "quantifies over goroutine schedules and data races; sequential contracts cannot decide it (DESIGN.md section 5)",
- 'C12': "oracle is the database content after a history of association operations driven by reflection; not expressible in contracts within reach (DESIGN.md section 5)",
 }
 m = {
  "version": 1,
